@@ -780,7 +780,12 @@ class Dict(dict, base.Symbolic, pg_typing.CustomTyping):
           '\'popitem\' cannot be performed on a Dict with value spec.')
     if base.treats_as_sealed(self):
       raise base.WritePermissionError('Cannot pop item from a sealed Dict.')
-    return super().popitem()
+    key, value = super().popitem()
+    # Detach old value from object tree.
+    if isinstance(value, base.TopologyAware):
+      value.sym_setparent(None)
+      value.sym_setpath(utils.KeyPath())
+    return key, value
 
   def clear(self) -> None:
     """Removes all the keys in current dict."""
@@ -788,6 +793,11 @@ class Dict(dict, base.Symbolic, pg_typing.CustomTyping):
       raise base.WritePermissionError('Cannot clear a sealed Dict.')
     value_spec = self._value_spec
     self._value_spec = None
+    # Detach old values from object tree.
+    for old_value in self.sym_values():
+      if isinstance(old_value, base.TopologyAware):
+        old_value.sym_setparent(None)
+        old_value.sym_setpath(utils.KeyPath())
     super().clear()
 
     if value_spec:
